@@ -292,6 +292,14 @@ func (e *Exec) step() bool {
 	in := f.block.Instrs[f.pc]
 	f.pc++
 	e.Stats.Steps++
+	if e.termLabel != "" && e.Stats.Steps > e.termBudget {
+		label := e.termLabel
+		e.termLabel = ""
+		if e.S.Check() == SatRes {
+			e.recordViolation("wedge", label, fmt.Sprintf("no return within the step budget (%s): the call spins", label), nil)
+		}
+		panic(pathEnd{"wedge"})
+	}
 	if e.Stats.Steps > e.MaxSteps {
 		e.unsupported(fmt.Sprintf("step budget exceeded (%d) — unbounded loop?", e.MaxSteps))
 	}
